@@ -250,6 +250,7 @@ class C20(Check):
         self.process(ctx, E, self.gen_table(ctx), 'table')
         self.process(ctx, E, self.gen_info(ctx, rng), 'info')
         self.process(ctx, E, self.gen_metascan(ctx, rng), 'metascan')
+        self.process(ctx, E, self.gen_encoded(ctx, rng), 'encoded')
         self.default_log_path(ctx, E)
 
     def corpus(self, ctx):
@@ -499,11 +500,38 @@ class C20(Check):
                            'resp': {'kind': 'message', 'content_type': mt, 'body': None}, 'media_type': mt, 'charset': None})
         return ws
 
+    # -- text against its bytes in UTF-8 / latin-1 / cp1252 ------------------------------------------------
+    def gen_encoded(self, ctx, rng):
+        ws = []
+        tails = ['<a>€中\xfc</a>', '\xe9\xe8', '<meta http-equiv="Content-Type" content="text/html;charset=中-x">',
+                 'encoding="\xe9"?>', '\U0001f600']
+        mts = [m for m, _ in MEDIA_TYPES] + [None]
+        for _ in range(ctx.n(250, 6000)):
+            mt = rng.choice(mts)
+            cs = rng.choice([None, None, 'Enc-A', 'utf-8'])
+            resp = None if (mt is None and rng.random() < 0.7) else \
+                {'kind': 'message', 'content_type': None if mt is None else mt + ('' if cs is None else ';charset=' + cs), 'body': None}
+            r = rng.random()
+            xp = self.gen_decl(rng) if rng.random() < 0.7 else ''
+            mp = meta_tag(rng.choice(ENC_NAMES), rng=rng) if rng.random() < 0.6 else ''
+            if r < 0.35:        # all ASCII: every class, every codec
+                text = xp + HTML_BODY % mp
+                codec = rng.choice(['utf-8', 'latin-1', 'cp1252', 'ascii'])
+            elif r < 0.8:       # ASCII head of at least 2048 characters, then anything
+                head = xp + '<!--' + 'x' * rng.choice([2048, 2100, 2047 - len(xp) - 4 if len(xp) < 2000 else 2048]) + '-->'
+                text = head + (HTML_BODY % mp) + rng.choice(tails)
+                codec = 'utf-8'
+            else:               # non-ASCII early: nothing promised, correspondence only
+                text = xp + rng.choice(tails) + HTML_BODY % mp
+                codec = 'utf-8'
+            ws.append({'call': 'textVsEncoded', 'resp': resp, 'text': text, 'codec': codec})
+        return ws
+
     # -- attribute lists straight into the callback of the meta parser --------------------------------------
     def gen_metascan(self, ctx, rng):
         """sequences of handle_starttag calls: what html.parser can report (lower-case names, None for a value-less
         attribute, repeated attributes) and beyond (the callback lower-cases names itself)"""
-        tags = ['meta'] * 8 + ['META', 'link', 'title', 'metadata', 'met', '']
+        tags = ['meta'] * 14 + ['META', 'link', 'title', 'metadata', 'met', '']
         names = ['http-equiv'] * 4 + ['content'] * 4 + ['HTTP-EQUIV', 'Http-Equiv', 'CONTENT', 'name', 'charset',
                                                          'http-equiv ', 'httpequiv', 'contents', 'É']
         equivs = ['Content-Type', 'content-type', ' content-type ', 'CONTENT-TYPE\t', '\ncontent-type', 'content-type;',
@@ -526,11 +554,15 @@ class C20(Check):
             ev = []
             for _ in range(rng.randint(1, 4)):
                 attrs = []
-                for _ in range(rng.randint(0, 4)):
+                for _ in range(rng.randint(1, 4)):
                     n = rng.choice(names)
                     low = n.strip().lower()
-                    v = rng.choice(equivs) if low == 'http-equiv' else rng.choice(contents) if low == 'content' \
-                        else rng.choice(['n', None, 'Content-Type', 'utf-8'])
+                    if low == 'http-equiv':     # mostly a spelling that counts, so that several metas of a sequence decide
+                        v = rng.choice(equivs[:5]) if rng.random() < 0.6 else rng.choice(equivs)
+                    elif low == 'content':
+                        v = rng.choice(contents)
+                    else:
+                        v = rng.choice(['n', None, 'Content-Type', 'utf-8'])
                     attrs.append([n, v])
                 ev.append([rng.choice(tags), attrs])
             ws.append({'call': 'metaScan', 'events': ev})
@@ -585,6 +617,14 @@ class C20(Check):
                 return self.plan_info(E, w)
             if call == 'metaScan':
                 return self.plan_metascan(E, w)
+            if call == 'textVsEncoded':
+                subs = []
+                for isb in (False, True):
+                    t = w['text'].encode(w['codec']).decode('latin-1') if isb else w['text']
+                    sw = {'call': 'getEncodingInfo', 'resp': w['resp'], 'text': t, 'bytes': isb, 'stream': 'encoded'}
+                    subs.append((sw, self.plan_info(E, sw)))
+                return {'lines': subs[0][1]['lines'] + subs[1][1]['lines'], 'impl': subs[0][1]['impl'] + subs[1][1]['impl'],
+                        'subs': subs}
         raise ValueError('unknown witness %r' % (w,))
 
     def plan_sniff(self, E, w):
@@ -640,6 +680,16 @@ class C20(Check):
                 res = ('OK-badflag',) + res[1:]
         except Exception as e:      # noqa: BLE001
             res = ('ERR', type(e).__name__)
+        # metamorphic twin (implementation only): the same values handed over in the other kind (str <-> bytes)
+        twin = None
+        if text is not None and all(ord(c) < 256 for c in text):
+            other = text if w.get('bytes') else text.encode('latin-1')
+            try:
+                j = E.getEncodingInfo(build_resp(w['resp']), other, log=_silent)
+                twin = ('OK', j.encoding, bool(j.mismatch), j.http_media_type, j.http_encoding, j.meta_media_type,
+                        j.meta_encoding, j.xml_encoding)
+            except Exception as e:      # noqa: BLE001
+                twin = ('ERR', type(e).__name__)
         # inputs of the model: what the message object answers, the effective document, the parser stage of the meta sniffer
         if resp is not None:
             info = resp.info()
@@ -683,7 +733,7 @@ class C20(Check):
         else:
             got = 'ERR ' + res[1]
         return {'lines': lines, 'impl': [got] + impls, 'res': res, 'eff': eff, 'meta_raw': mr, 'mt': mt, 'cs': cs,
-                'events': events, 'ctype': ctype, 'hexc': hexc}
+                'events': events, 'ctype': ctype, 'hexc': hexc, 'twin': twin}
 
     # ------------------------------------------------------------------------------------------------
     def judge(self, ctx, E, w, pl, model):
@@ -712,6 +762,10 @@ class C20(Check):
                 self.oracle_meta(ctx, w, pl['events'], ('OK', pl['ctype']), case=False)
         elif call == 'metaScan':
             self.oracle_meta(ctx, w, w['events'], pl['res'], case=True)
+        elif call == 'textVsEncoded':
+            for sw, spl in pl['subs']:
+                self.oracle_info(ctx, E, sw, spl)
+            self.oracle_encoded(ctx, w, pl)
 
     def oracle_classify(self, ctx, E, w, pl):
         mt = w['media_type']
@@ -736,6 +790,14 @@ class C20(Check):
         res = pl['res']
         ctx.case(key=('sniff', d, form, pos, incl), nontrivial=(st == 'bom' or d.startswith('<?xml')),
                  kind='sniff:%s:%s' % (form, st), sample={'doc': d[:80], 'form': form, 'pos': pos, 'impl': list(res)})
+        if form == 'str' and len(d) > 2048:
+            # only the first 2048 characters are looked at (theorem sniff_window; here on the implementation)
+            try:
+                cut = ('OK', E.detectXMLEncoding(d[:2048], log=None, includeDefault=incl))
+            except Exception as e:      # noqa: BLE001
+                cut = ('ERR', type(e).__name__)
+            if cut != res:
+                ctx.violate('XML sniffing looks at the first 2048 characters only', w, {'whole': list(res), 'cut': list(cut)})
         if w.get('oracle') is False:
             return
         known = KF_SHORT if S.region_short(d) else None
@@ -769,6 +831,25 @@ class C20(Check):
                         'case-insensitive, last attribute of a name counts)', w, {'impl': res[1], 'spec': want,
                                                                                  'events': events})
 
+    def oracle_encoded(self, ctx, w, pl):
+        """text vs its bytes in an ASCII-transparent codec: same EncodingInfo when the whole document is ASCII, or when the
+        first 2048 characters are and the class does not consult the meta stage (theorems ascii_document_any_encoding /
+        ascii_head_any_encoding; here checked on the implementation)"""
+        t = w['text']
+        (_, p1), (_, p2) = pl['subs']
+        has_resp = w['resp'] is not None
+        cls = S.spec_classify(p1['mt']) if has_resp else S.absent_class(t)
+        if t.isascii():
+            must = True
+        elif t[:2048].isascii() and len(t) >= 2048 and cls not in ('html', 'text', None):
+            must = True
+        else:
+            must = False
+        ctx.count('encoded:' + ('must-agree' if must else 'free'))
+        if must and p1['res'] != p2['res']:
+            ctx.violate('text and its bytes in an ASCII-transparent encoding get the same EncodingInfo when the part of the '
+                        'document that is looked at is ASCII', w, {'text': list(p1['res']), 'bytes': list(p2['res'])})
+
     def oracle_info(self, ctx, E, w, pl):
         res, doc = pl['res'], as_text(pl['eff'])
         has_resp = w['resp'] is not None
@@ -777,6 +858,12 @@ class C20(Check):
         ctx.case(key=('info', json.dumps(w, sort_keys=True)), nontrivial=srcs,
                  kind='%s:%s' % (w.get('stream', 'info'), cls_guess),
                  sample={'resp': w['resp'], 'text': (w['text'] or '')[:100], 'bytes': w.get('bytes'), 'impl': list(res)})
+        if pl.get('twin') is not None and pl['twin'][1:] != res[1:] and pl['twin'][0][:2] == res[0][:2]:
+            ctx.violate('the document given as text or as bytes (same values) gets the same EncodingInfo', w,
+                        {'given': list(res), 'other kind': list(pl['twin'])})
+        elif pl.get('twin') is not None and pl['twin'][0][:2] != res[0][:2]:
+            ctx.violate('the document given as text or as bytes (same values) gets the same EncodingInfo (one call raised)', w,
+                        {'given': list(res), 'other kind': list(pl['twin'])})
         if res[0] == 'ERR':
             ctx.violate('for every document the encoding is reported by the documented rules (the call raised)', w,
                         {'impl': list(res)})
